@@ -380,6 +380,35 @@ permit(principal, action, resource) when { context.s.containsAny([1]) && princip
 			_, rerr := s.Resolve()
 			return string(c) + "\n" + string(js) + "\n" + string(c2) + "\n" + string(js2) + "\n" + fmt.Sprint(rerr), nil
 		}},
+		{"failed-decodes-leave-the-same-state", func() (string, error) {
+			// one bad member among good ones: the error and whatever the target holds afterwards
+			// are the same on every run
+			var out []string
+			doc := `{"staticPolicies":{"p3":` + policyJSON + `,"p0":null,"p1":{"effect":"forbid","principal":{"op":"All"},"action":{"op":"All"},"resource":{"op":"All"}},"p2":{"effect":"permit","principal":{"op":"All"},"action":{"op":"All"},"resource":{"op":"All"}}}}`
+			for _, used := range []bool{false, true} {
+				ps := cedar.NewPolicySet()
+				if used {
+					var q cedar.Policy
+					_ = q.UnmarshalCedar([]byte("forbid ( principal, action, resource );"))
+					ps.Add("old", &q)
+				}
+				err := ps.UnmarshalJSON([]byte(doc))
+				js, _ := ps.MarshalJSON()
+				dec, diag := cedar.Authorize(ps, ents, req)
+				out = append(out, fmt.Sprint(err), string(ps.MarshalCedar()), string(js), diagString(dec, diag))
+			}
+			var em types.EntityMap
+			err := json.Unmarshal([]byte(`[{"uid":{"type":"U","id":"a"},"parents":[],"attrs":{},"tags":{}},{"uid":{"type":"U","id":"b"},"parents":[],"attrs":{"x":{"__extn":{"fn":"nope","arg":"1"}}},"tags":{}},{"uid":{"type":"U","id":"c"},"parents":[],"attrs":{},"tags":{}}]`), &em)
+			ej, _ := json.Marshal(em)
+			out = append(out, fmt.Sprint(err), string(ej))
+			var sc schema.Schema
+			_ = sc.UnmarshalCedar([]byte(schemaText))
+			err = sc.UnmarshalJSON([]byte(`{"A":{"entityTypes":{"X":{}},"actions":{}},"B":{"entityTypes":{"Y":{"shape":{"type":"Nope"}}},"actions":{}},"C":{"entityTypes":{"Z":{}},"actions":{}}}`))
+			sj, _ := sc.MarshalJSON()
+			st, _ := sc.MarshalCedar()
+			out = append(out, fmt.Sprint(err), string(sj), string(st))
+			return strings.Join(out, "\n"), nil
+		}},
 		{"schema-json-decode-reencode", func() (string, error) {
 			var s0 schema.Schema
 			if err := s0.UnmarshalCedar([]byte(schemaText)); err != nil {
